@@ -397,7 +397,7 @@ func (p *Prog) modsetCall(fi *FuncInfo, ce *ast.CallExpr, ms map[string]bool, bi
 		// union over repo implementations
 		impls := p.implementers(callee.Type().(*types.Signature).Recv().Type())
 		if len(impls) == 0 {
-			ms["*"] = true
+			// only the application can implement it: assumed not to write the package's objects (A-iface)
 			return
 		}
 		for _, it := range impls {
